@@ -604,6 +604,98 @@ func init() {
 					judgeMarshal(c, v, "float-spelling")
 				}
 			}},
+			{Name: "numbers-and-misuse", Count: n(6000, 120000), Run: func(c *core.Ctx, idx int) {
+				// Number accessors against encoding/json's, and the misuse errors (nil / non-pointer target)
+				lit := gen.OddNumbers[c.R.Intn(len(gen.OddNumbers))]
+				if c.R.Intn(3) == 0 {
+					lit = []string{"", "abc", "1e", "0x10", "9223372036854775807", "9223372036854775808", "-9223372036854775808", "1.0", "1e2", "-0", "1e400", "4.9e-324"}[c.R.Intn(12)]
+				}
+				fn, sn := ij.Number(lit), stdjson.Number(lit)
+				ff, fe := fn.Float64()
+				sf, se := sn.Float64()
+				fi, fie := fn.Int64()
+				si, sie := sn.Int64()
+				c.Eval(3)
+				d := map[string]any{"literal": lit}
+				if fn.String() != sn.String() || (fe == nil) != (se == nil) || (fe == nil && ff != sf && !(ff != ff && sf != sf)) || (fie == nil) != (sie == nil) || fi != si {
+					d["fork"], d["std"] = fmt.Sprint(ff, fe, fi, fie), fmt.Sprint(sf, se, si, sie)
+					c.Violation("number:accessors-differ", d)
+					return
+				}
+				if ij.Delim('[').String() != stdjson.Delim('[').String() || ij.Delim('}').String() != stdjson.Delim('}').String() {
+					c.Violation("stream:Delim.String-differs", d)
+					return
+				}
+				text := []byte(`{"a":` + gen.OddNumbers[c.R.Intn(len(gen.OddNumbers))] + `}`)
+				var m map[string]any
+				for i, target := range []any{nil, m, 7, (*int)(nil), struct{}{}} {
+					var e1 error
+					pn := mon.Try(func() { e1 = ij.Unmarshal(text, target) })
+					e2 := stdjson.Unmarshal(text, target)
+					c.Eval(1)
+					if pn != nil || (e1 == nil) != (e2 == nil) || (e1 != nil && e1.Error() != e2.Error()) {
+						d["target_index"], d["fork_error"], d["std_error"] = i, errText(e1), errText(e2)
+						c.Violation("misuse:invalid-unmarshal-target-handled-differently", d)
+						return
+					}
+				}
+				c.Count("numbers-and-misuse:ok")
+			}},
+			{Name: "fork-only-marshalers", Count: n(10000, 200000), Run: func(c *core.Ctx, idx int) {
+				// RedirectMarshaler / TrustMarshaler (what the patch package encodes its nodes through): wherever
+				// such a value stands - alone, behind a pointer, in a slice, a map, a struct field - the bytes must
+				// be those of the value it redirects to / the bytes it wrote, under both escape settings
+				v := genGo(c.R, 2)
+				esc := c.R.Intn(2) == 0
+				var sb bytes.Buffer
+				se := stdjson.NewEncoder(&sb)
+				se.SetEscapeHTML(esc)
+				if se.Encode(v) != nil {
+					c.Count("fork-only:inner-value-not-encodable")
+					return
+				}
+				plain := bytes.TrimSuffix(sb.Bytes(), []byte("\n"))
+				type holder struct {
+					A int
+					R redirV
+					P *redirV
+					T trustV `json:"t"`
+				}
+				rv, tv := redirV{v}, trustV{plain}
+				cases := []struct {
+					name string
+					val  any
+					want string
+				}{
+					{"redirect", rv, string(plain)},
+					{"redirect-pointer", &rv, string(plain)},
+					{"redirect-twice", redirV{rv}, string(plain)},
+					{"trust", tv, string(plain)},
+					{"trust-pointer", &tv, string(plain)},
+					{"slice", []any{rv, nil, tv, (*redirV)(nil)}, "[" + string(plain) + ",null," + string(plain) + ",null]"},
+					{"map", map[string]any{"k": rv, "t": &tv}, `{"k":` + string(plain) + `,"t":` + string(plain) + `}`},
+					{"struct", holder{A: 1, R: rv, T: tv}, `{"A":1,"R":` + string(plain) + `,"P":null,"t":` + string(plain) + `}`},
+					{"redirect-to-trust", redirV{tv}, string(plain)},
+				}
+				for _, tc := range cases {
+					var got []byte
+					var err error
+					pn := mon.Try(func() { got, err = ij.MarshalEscaped(tc.val, esc) })
+					c.Eval(1)
+					d := map[string]any{"position": tc.name, "inner_value": clip(fmt.Sprintf("%#v", v), 600), "escape_html": esc, "fork": clip(string(got), 800), "expected": clip(tc.want, 800), "error": errText(err)}
+					if pn != nil {
+						d["panic"] = panicDetail(pn)
+						c.Violation("fork-only:"+pn.Sig(), d)
+						return
+					}
+					if err != nil || normBytes(got) != normBytes([]byte(tc.want)) {
+						c.Violation("fork-only:"+tc.name+"-does-not-encode-as-the-value-it-stands-for", d)
+						return
+					}
+				}
+				c.Count("fork-only:ok")
+				c.Nontrivial("fo", fmt.Sprintf("%#v", v), fmt.Sprint(esc))
+			}},
 			{Name: "typed-basic-targets", Count: n(20000, 400000), Run: func(c *core.Ctx, idx int) {
 				t := fieldTypes[c.R.Intn(len(fieldTypes))]
 				text := genTextFor(c.R, t, 3)
